@@ -145,6 +145,21 @@ func TestParseV1Header(t *testing.T) {
 			err:    "while parsing proxy proto v1 header: invalid port 'NOT-A-PORT' at pos '3'",
 		},
 		{
+			name:   "Negative port",
+			header: "PROXY TCP4 192.168.1.1 192.168.1.1 -1 2345\r\n",
+			err:    "while parsing proxy proto v1 header: invalid port '-1' at pos '2'",
+		},
+		{
+			name:   "Port out of range",
+			header: "PROXY TCP4 192.168.1.1 192.168.1.1 22 70000\r\n",
+			err:    "while parsing proxy proto v1 header: invalid port '70000' at pos '3'",
+		},
+		{
+			name:   "Port with leading zero",
+			header: "PROXY TCP4 192.168.1.1 192.168.1.1 022 2345\r\n",
+			err:    "while parsing proxy proto v1 header: invalid port '022' at pos '2'",
+		},
+		{
 			name:   "Corrupted address line",
 			header: "PROXY TCP4 192.168.1.1 192.168.1.1 2345\r\n",
 			err:    "while parsing proxy proto v1 header: address line '192.168.1.1 192.168.1.1 2345' corrupted",
